@@ -170,9 +170,40 @@ def cases(desc):
     for j in range(desc["n_random"]):
         if j % n == i:
             r = rand.rng(seed, "c20r", j)
-            yield "random", rand.rand_model(r, r.randint(2, 40), n_ctcs=r.randint(0, 5), ctc_depth=2,
-                                            group_kinds=("alternative", "or", "mutex", "cardinality"),
-                                            abstract_p=0.1), r
+            spec = rand.rand_model(r, r.randint(2, 40), n_ctcs=r.randint(0, 5), ctc_depth=2,
+                                   group_kinds=("alternative", "or", "mutex", "cardinality"), abstract_p=0.1)
+            if j % 3 == 0:
+                spec = case_colliding(spec, r)
+                yield "random-case-colliding-names", spec, r
+            else:
+                yield "random", spec, r
+
+
+def case_colliding(spec, r):
+    """Rename some features so that several names differ only in letter case (distinct features!)."""
+    feats = list(S.features(spec["root"]))
+    names = set(S.feature_names(spec))
+    ren = {}
+    for f in r.sample(feats, max(1, len(feats) // 2)):
+        for cand in (f["name"].lower(), f["name"].upper(), f["name"].swapcase()):
+            if cand not in names and f["name"] not in ren.values():
+                # pair (f, g): g gets a case variant of f's name
+                g = r.choice(feats)
+                if g is f or g["name"] in ren or g["name"] in ren.values():
+                    break
+                ren[g["name"]] = cand
+                names.add(cand)
+                break
+
+    def sub(t):
+        if isinstance(t, list):
+            return [t[0]] + [sub(x) for x in t[1:]]
+        return ren.get(t, t)
+    for f in feats:
+        f["name"] = ren.get(f["name"], f["name"])
+    for c in spec["ctcs"]:
+        c["ast"] = sub(c["ast"])
+    return spec
 
 
 def contract(acc, cls, payload, a, b, expect_equal, what, edit):
@@ -217,6 +248,55 @@ def contract(acc, cls, payload, a, b, expect_equal, what, edit):
         acc.fail(cls, clause, what, tags, "contract-broken", m, payload)
     acc.count("pairs:" + what)
     return not msgs
+
+
+def inplace_histories(acc, source, spec, r, payload):
+    from flamapy.core.models.ast import AST
+    good = True
+    names = S.feature_names(spec)
+    fresh = "Zz9" + str(len(names))
+    # (1) constraint AST replaced through the property setter
+    if spec.get("ctcs"):
+        i = r.randrange(len(spec["ctcs"]))
+        for mk in (change_op, lambda a: change_operand(a, fresh)):
+            m, before = S.build(spec), S.build(spec)
+            _ = (m == before, hash(m), sorted(m.ctcs), [hash(c) for c in m.ctcs])
+            es = copy.deepcopy(spec)
+            es["ctcs"][i]["ast"] = mk(spec["ctcs"][i]["ast"])
+            if S.digest(es["ctcs"][i]["ast"]).lower() == S.digest(spec["ctcs"][i]["ast"]).lower():
+                continue
+            m.ctcs[i].ast = AST(S.build_ast(es["ctcs"][i]["ast"]))
+            p2 = dict(payload, other=es, edit="in-place:ctc.ast-setter")
+            good &= contract(acc, source, p2, m, before, False, "FeatureModel", "in-place ast edit vs pre-edit copy")
+            good &= contract(acc, source, p2, m, S.build(es), True, "FeatureModel", "in-place ast edit vs fresh build")
+            good &= contract(acc, source, p2, m.ctcs[i], before.ctcs[i], False, "Constraint", "in-place ast edit vs pre-edit copy")
+            good &= contract(acc, source, p2, m.ctcs[i], S.build(es).ctcs[i], True, "Constraint", "in-place ast edit vs fresh build")
+            acc.count("history:in-place-ast")
+    # (2) a feature renamed / a cardinality changed in place after comparisons
+    m, before = S.build(spec), S.build(spec)
+    _ = (m == before, hash(m), hash(m.root), [hash(x) for x in m.get_relations()])
+    feats, rels = all_objects(m)
+    f = r.choice(feats)
+    old = f.name
+    f.name = fresh
+    es = copy.deepcopy(spec)
+    for x in S.features(es["root"]):
+        if x["name"] == old:
+            x["name"] = fresh
+    p2 = dict(payload, other=es, edit="in-place:feature.name")
+    good &= contract(acc, source, p2, m, before, False, "FeatureModel", "in-place rename vs pre-edit copy")
+    good &= contract(acc, source, p2, m, S.build(es), True, "FeatureModel", "in-place rename vs fresh build")
+    acc.count("history:in-place-rename")
+    if rels:
+        m, before = S.build(spec), S.build(spec)
+        _ = (m == before, hash(m), [hash(x) for x in m.get_relations()], sorted(m.get_relations()))
+        _, rels = all_objects(m)
+        rel = r.choice(rels)
+        rel.card_max = rel.card_max + 1
+        p2 = dict(payload, edit="in-place:relation.card_max")
+        good &= contract(acc, source, p2, m, before, False, "FeatureModel", "in-place card_max edit vs pre-edit copy")
+        acc.count("history:in-place-card")
+    return good
 
 
 def all_objects(m):
@@ -269,6 +349,9 @@ def run_case(acc, source, spec, r):
         payload2 = dict(payload, other=es, edit=name)
         good &= contract(acc, source, payload2, m, m2, False, "FeatureModel", name)
         acc.count("edit:" + name)
+    # --- histories: compare/hash first (fills any cache), then edit IN PLACE through the public attributes
+    # and setters; the edited object must differ from its pre-edit copy and equal a freshly built model
+    good &= inplace_histories(acc, source, spec, r, payload)
     # element-wise: different features / relations / constraints of one model are pairwise unequal
     f1, r1 = all_objects(m)
     for a in f1[:12]:
